@@ -222,11 +222,24 @@ inline std::string gen_ipv6_host(Rng& r) {
   if (r.chance(1, 15) && !body.empty()) body[r.below(uint32_t(body.size()))] = ":.%g]/"[r.below(6)];
   return "[" + body + "]";
 }
+// A precomposed letter followed by one or two combining marks. When a mark has a lower combining class than the marks
+// inside the letter's own decomposition, NFC reorders it in front of them and it may compose with the base letter
+// (U+00F1 U+032D -> U+1E4B U+0303): the shape an "is this already NFC?" shortcut has to get right (genuine defect F7).
+inline void append_nfc_reorder_seq(std::string& o, Rng& r) {
+  static const uint32_t composites[] = {0xF1, 0xE9, 0xE4, 0xF4, 0xEA, 0xE5, 0xE0, 0xFC, 0x1E4B, 0x1EA1, 0x1EB9, 0x1EB, 0x3AC, 0x439, 0xC5, 0xD1};
+  static const uint32_t marks[] = {0x323, 0x32D, 0x331, 0x327, 0x328, 0x31B, 0x316, 0x301, 0x303, 0x308, 0x302, 0x30A, 0x5B0, 0x345};
+  append_utf8(o, pick(r, composites));
+  int k = r.chance(1, 3) ? 2 : 1;
+  for (int i = 0; i < k; i++) append_utf8(o, pick(r, marks));
+}
 // Domain that mixes labels needing IDNA mapping with labels that are already Punycode ("ü.xn--bcher-kva.example"):
 // the only inputs that reach the re-validation of xn-- labels inside a non-ASCII conversion.
 inline std::string gen_mixed_idn_host(Rng& r) {
   static const char* const puny[] = {"xn--bcher-kva", "xn--9ca", "xn--mnchen-3ya", "xn--4ca", "xn--kgbechtv", "xn--nxasmq6b",
-                                     "XN--BCHER-KVA", "xn--a", "xn--ls8h", "xn--80ak6aa92e"};
+                                     "XN--BCHER-KVA", "xn--a", "xn--ls8h", "xn--80ak6aa92e",
+                                     // ACE forms of strings that are NOT in NFC (must be rejected) and of their NFC forms (accepted)
+                                     "xn--ida85i", "xn--9ca45i", "xn--4ca46i", "xn--e-xbb", "xn--lda24i", "xn----rga03o", "xn--bda25i", "xn--5ca49h",
+                                     "xn--msa552l", "xn--nsa180l", "xn--lsa503l", "xn--0ca64i"};
   static const uint32_t cps[] = {0xFC, 0xE9, 0xDF, 0x3C2, 0x628, 0x3316, 0xFF21, 0x200D, 0x130, 0x1F600};
   std::string o;
   int n = r.range(2, 4);
@@ -238,7 +251,8 @@ inline std::string gen_mixed_idn_host(Rng& r) {
     if (i == n - 2 && !have_p) k = 1;
     if (k == 0) {
       o += gen_label(r, r.range(0, 3));
-      append_utf8(o, pick(r, cps));
+      if (r.chance(1, 4)) append_nfc_reorder_seq(o, r);
+      else append_utf8(o, pick(r, cps));
       o += gen_label(r, r.range(0, 2));
       have_u = true;
     } else if (k == 1) {
@@ -286,7 +300,8 @@ inline std::string gen_host(Rng& r) {
         if (i) o += r.chance(1, 6) ? "\xe3\x80\x82" : ".";
         int k = r.range(1, 4);
         for (int j = 0; j < k; j++) {
-          if (r.chance(1, 2)) append_utf8(o, pick(r, kInterestingCps));
+          if (r.chance(1, 6)) append_nfc_reorder_seq(o, r);
+          else if (r.chance(1, 2)) append_utf8(o, pick(r, kInterestingCps));
           else o += gen_label(r, r.range(1, 3));
         }
       }
